@@ -4,6 +4,8 @@ mod e2;
 mod e2drv;
 mod e2torn;
 mod e2power;
+mod e2evict;
+mod e2fault;
 mod gen;
 mod interp;
 mod model;
